@@ -92,3 +92,15 @@ package meta
 //@ func UUID.MarshalBinary
 //@   props C16
 //@   ensures [C16] err == nil && len(data) == 16 && data[0] == u[0] && data[1] == u[1] && data[2] == u[2] && data[3] == u[3] && data[4] == u[4] && data[5] == u[5] && data[6] == u[6] && data[7] == u[7] && data[8] == u[8] && data[9] == u[9] && data[10] == u[10] && data[11] == u[11] && data[12] == u[12] && data[13] == u[13] && data[14] == u[14] && data[15] == u[15]
+
+// C16 text form of ExposureBias ("+n/d", "-n/d", "0/0"): UnmarshalText treats any text that starts with '0' as the zero
+// value, so for the round trip Unmarshal(Marshal(v)) == v a non-zero value must never be written with a leading '0':
+// a positive value (numerator byte >= 0, including numerator 0 with a non-zero denominator) carries an explicit '+',
+// a negative numerator its '-'.
+//@ func ExposureBias.MarshalText
+//@   props C16
+//@   ensures [C16] err == nil && len(text) >= 3
+//@   ensures [C16] eb != 0 ==> text[0] != '0'
+//@   ensures [C16] eb > 0 ==> text[0] == '+'
+//@   ensures [C16] eb < 0 ==> text[0] == '-'
+//@   ensures [C16] eb == 0 ==> len(text) == 3 && text[0] == '0' && text[1] == '/' && text[2] == '0'
